@@ -129,6 +129,9 @@ func renderNH(nh *aft.Afts_NextHop) rendered {
 	if nh.MacAddress != nil {
 		x = append(x, [2]uint64{2, revKey(drv.MACVals, *nh.MacAddress)})
 	}
+	if nh.PopTopLabel != nil {
+		x = append(x, [2]uint64{3, map[bool]uint64{true: 1, false: 2}[*nh.PopTopLabel]})
+	}
 	return rendered{T: "nh", Key: nh.GetIndex(),
 		Text:   fmt.Sprintf("nh x=%v", x),
 		CoqKey: fmt.Sprintf("(KNh %d)", nh.GetIndex()), CoqKey0: "(KNh 0)",
